@@ -184,6 +184,14 @@ def run_script_sym(it, script, opts=None):
         tol = as_dur_val(P.dur("tol"))
     w = SimWorld(it, as_time_val(t0), tolerance=tol, names=opts.get("names") or ["a", "b"])
     w.permute = bool(opts.get("permute"))
+    w.pending_mode = bool(opts.get("pending"))
+    if opts.get("tie"):
+        # shape variant in which the listed (absolute-deadline) requests are all accepted and share one deadline
+        # (a stated restriction of this shape; the unrestricted variant of the shape is explored as well)
+        first = P.time(f"c{opts['tie'][0]}")
+        it.assume(first > t0)
+        for ci in opts["tie"][1:]:
+            it.assume(P.time(f"c{ci}") == first)
     # loop bounds: inner loops of one step are bounded by the number of queue entries (+ slack); the outer loop of
     # step_until by the stated number of distinct due times
     nsched = sum(1 for c in script if c["op"] == "sched") + sum(1 for c in script if c.get("effect") and c["effect"]["op"] == "sched")
@@ -417,7 +425,10 @@ def oracle(script, P, obs, ck, opts=None):
             ck.check(t_lt(now, d), "C08:accepted-deadline-in-future", f"cmd {i}")
             if period is not None:
                 ck.check(z3.Not(d_is_zero(period)), "C08:accepted-period-nonzero", f"cmd {i}")
-            add_entry(cmdlike["id"], d, origin, period, key, born=("handler", i, nfire[0]) if label_prefix == "handler" else None)
+            ne_ = add_entry(cmdlike["id"], d, origin, period, key, born=("handler", i, nfire[0]) if label_prefix == "handler" else None)
+            # events scheduled on a model input (event API: Scheduler::schedule_*event / Context::schedule_*event; every
+            # request of a handler or of a model origin) re-check their key inside the model right before the handler runs
+            ne_["recheck"] = bool(label_prefix == "handler" or origin != 0 or cmdlike.get("api", "action") == "event")
         else:
             var = res[1]
             if var == "InvalidScheduledTime":
@@ -557,6 +568,13 @@ def oracle(script, P, obs, ck, opts=None):
                     ck.check(t_eq(now, e["d"]), "C01:executed-at-deadline", f"cmd {i}: action {lid}")
                 if e["cancelled"] and e.get("cancelled_at") != i:
                     ck.check(False, "C09:cancelled-not-executed", f"cmd {i}: action {lid} executed after its key was cancelled")
+                elif e["cancelled"] and e.get("recheck") and e.get("cancelled_by_origin") == e["origin"]:
+                    # (same origin and same time => both events travel in one sequential future, so the canceller's
+                    # handler has completed before the cancelled event reaches the model)
+                    # cancelled earlier in this very step (by a handler that ran before it): an event on a model input
+                    # is still stopped, up to the moment the model starts processing it
+                    ck.check(False, "C09:cancelled-up-to-processing", f"cmd {i}: event {lid} on a model input was processed although its key "
+                                                                      f"had been cancelled by an earlier handler of the same step")
                 if last_fire_t is not None:
                     ck.check(t_le(last_fire_t, t), "C01:chronological-order", f"cmd {i}: action {lid}")
                 last_fire_t = t
@@ -589,6 +607,7 @@ def oracle(script, P, obs, ck, opts=None):
                     if e["key"] == ev[1] and not e["fired"]:
                         e["cancelled"] = True
                         e["cancelled_at"] = i
+                        e["cancelled_by_origin"] = fired_now[-1]["origin"] if fired_now else None
                         cancelled_during.add(id(e))
             elif k == "esched":
                 owner = ev[1]
